@@ -18,7 +18,7 @@ from ..rules import call_sites, node_calls, require_before, check_take_and_clear
 from ..mutate import mutate, remove_stmts, replace_stmt, replace_expr, parse_stmt, parse_expr
 from ..model import AnalysisError
 from ..x_scope import own_nodes
-from ..x_flow import resolve_local, concrete_paths
+from ..x_flow import protected, resolve_local, concrete_paths
 
 TECHNIQUE = "dominance on the CFG + path-sensitive typestate with abstract evaluation of the wait-status macros + take-and-clear / settle-discipline lint"
 EXPLANATION = (
@@ -163,7 +163,7 @@ def rule_try_cleanup(ck):
     c = wpn.ast.value
     ck.ob("C42.reap", fi, c, len(c.args) == 2 and q.dotted(c.args[0]) == pidp and q.dotted(c.args[1]) == "os.WNOHANG", "waitpid polls the given pid without blocking the event loop (os.WNOHANG)")
     pm = q.parent_map(fi.node)
-    h = q.protected_by(pm, c, "ChildProcessError")
+    h = protected(pm, c, "ChildProcessError")
     ck.ob("C42.reap", fi, c, h is not None, "ChildProcessError (already reaped / not our child) is tolerated", construct="ChildProcessError-handled " + q.unparse(c))
     pops = [(n, x) for n, x in cfg.find(lambda x: isinstance(x, ast.Call) and q.call_attr(x) == "pop" and _cls_recv(q.receiver(x)) == "_waiting")]
     dels = [(n, x) for n, x in cfg.find(lambda x: isinstance(x, ast.Delete) and any(isinstance(t, ast.Subscript) and _cls_recv(q.dotted(t.value)) == "_waiting" for t in x.targets))]
@@ -228,6 +228,35 @@ def rule_try_cleanup(ck):
     ck.floor("C42.reap", len(sched), 1, "_set_returncode scheduling sites")
 
 
+def _take_and_clear(ck, rule, fi, attr, what):
+    """Take-and-clear of ``attr`` in either spelling: `a = self.x; self.x = None` or the tuple swap `a, self.x = self.x, None`.
+    Every call of the taken value goes through the local alias with the attribute already cleared.  Returns (#uses, aliases)."""
+    aliases = set()
+    clear_ids = set()
+    for n in fi.cfg.stmt_nodes(lambda n: n.kind == "stmt" and isinstance(n.ast, ast.Assign)):
+        st = n.ast
+        pairs = []
+        for t in st.targets:
+            if isinstance(t, ast.Tuple) and isinstance(st.value, ast.Tuple) and len(t.elts) == len(st.value.elts):
+                pairs.extend(zip(t.elts, st.value.elts))
+            else:
+                pairs.append((t, st.value))
+        for t, v in pairs:
+            if isinstance(t, ast.Name) and q.dotted(v) == attr:
+                aliases.add(t.id)
+            if q.dotted(t) == attr and isinstance(v, ast.Constant) and v.value is None:
+                clear_ids.add(n.id)
+    is_clear = lambda n: n.id in clear_ids
+    is_set = lambda n: n.kind == "stmt" and isinstance(n.ast, (ast.Assign, ast.AnnAssign)) and attr in q.assigned_paths(n.ast) and n.id not in clear_ids
+    ef = event_facts(fi, {"cleared": is_clear}, {"cleared": is_set}, cond_facts=False)
+    k = 0
+    for node, c in fi.cfg.find(lambda x: isinstance(x, ast.Call) and q.dotted(x.func) in aliases | {attr}):
+        k += 1
+        d = q.dotted(c.func)
+        ck.ob(rule, fi, c, d in aliases and ("@cleared", True) in ef[node.id], what)
+    return k, aliases
+
+
 def rule_decode(ck, cb_attr):
     global _EV
     _EV = Evaluator(ck.repo, F, CLS)
@@ -238,47 +267,45 @@ def rule_decode(ck, cb_attr):
     status = params[0]
     cfg = fi.cfg
     is_rc = lambda n: n.kind == "stmt" and isinstance(n.ast, (ast.Assign, ast.AnnAssign)) and "self.returncode" in q.assigned_paths(n.ast)
-    results = {}
-
-    def tr(n, v):
-        classes, assigned = v
-        if is_rc(n):
-            for c in classes:
-                try:
-                    val = q.fold(_status_subst(n.ast.value, status, c), {})
-                except q.NotFoldable as e:
-                    raise AnalysisError("returncode expression %s cannot be evaluated for class %s (%s)" % (q.unparse(n.ast.value), c, e))
-                k = (n.id, c)
-                results[k] = results.get(k, True) and (val == EXPECTED[c])
-            assigned = True
-        return (classes, assigned)
-
-    def edge(n, kind, v):
-        classes, assigned = v
-        if n.kind == "test" and kind in ("true", "false"):
-            want = kind == "true"
-            t, pol = canon_fact(n.ast, want)
-            if t == "sys.platform == 'win32'":
-                return None if pol else v
-            if status in q.names_in(n.ast):
-                try:
-                    keep = frozenset(c for c in classes if bool(q.fold(_status_subst(n.ast, status, c), {})) == want)
-                except q.NotFoldable as e:
-                    raise AnalysisError("status predicate %s cannot be evaluated (%s)" % (q.unparse(n.ast), e))
-                if not keep:
-                    return None
-                classes = keep
-        return (classes, assigned)
-
-    seen = explore(cfg, (frozenset(EXPECTED), False), tr, lambda t: False, edge_transfer=edge, follow_exc=False)
-    nodes = {n.id: n for n in cfg.nodes}
-    for (nid, c), ok in sorted(results.items()):
-        what = "killed by signal %d -> returncode == %d" % (STATUS[c][1], EXPECTED[c]) if STATUS[c][0] else "exit status %d -> returncode == %d" % (STATUS[c][2], EXPECTED[c])
-        ck.ob("C42.status-decoding", fi, nodes[nid].ast, ok, what, construct="%s: %s" % (c, q.unparse(nodes[nid].ast)))
     if not fi.cfg.stmt_nodes(is_rc):
         raise AnalysisError("_set_returncode does not assign self.returncode itself (moved into a helper?): decoding is not followed")
-    covered = {c for (_nid, c) in results}
-    ck.ob("C42.status-decoding", fi, fi.node, covered == set(EXPECTED), "every exit class reaches an assignment of self.returncode (covered: %s)" % ",".join(sorted(covered)), construct="classes-covered " + ",".join(sorted(covered)))
+    # per abstract wait status: fold the function (locals included) and read the value stored in self.returncode
+    import copy as _copy
+
+    def make_subst(c):
+        def sub(e):
+            e2 = _EV.subst(e, status, c)
+
+            class T(ast.NodeTransformer):
+                def visit_Compare(self, node):
+                    if q.unparse(node) in ("sys.platform == 'win32'", "'win32' == sys.platform"):
+                        return ast.Constant(value=False)
+                    if q.unparse(node) in ("sys.platform != 'win32'",):
+                        return ast.Constant(value=True)
+                    return self.generic_visit(node)
+
+            return T().visit(e2)
+        return sub
+
+    covered = set()
+    for c in sorted(EXPECTED):
+        sub = make_subst(c)
+
+        def event(n, env, sub=sub):
+            if is_rc(n):
+                try:
+                    return "rc=%r" % (q.fold(sub(n.ast.value), env),)
+                except q.NotFoldable as e:
+                    raise AnalysisError("returncode expression %s cannot be evaluated for wait status %s (%s)" % (q.unparse(n.ast.value), c, e))
+            return None
+
+        outs = concrete_paths(fi, {}, event, subst=sub, event_env=True)
+        vals = sorted({t[-1] for _k, t in outs if t and t[-1].startswith("rc=")} | {"none" for _k, t in outs if not any(x.startswith("rc=") for x in t) and _k == "return"})
+        if len(vals) != 1:
+            raise AnalysisError("_set_returncode: the stored return code for wait status %s is not determined by folding (%s)" % (c, vals))
+        what = "killed by signal %d -> returncode == %d" % (STATUS[c][1], EXPECTED[c]) if STATUS[c][0] else "exit status %d -> returncode == %d" % (STATUS[c][2], EXPECTED[c])
+        ck.ob("C42.status-decoding", fi, fi.node, vals[0] == "rc=%r" % (EXPECTED[c],), what + " (stored: %s)" % vals[0], construct="%s -> %s" % (c, vals[0]))
+        covered.add(c)
     # callback: take-and-clear, called with the decoded code, after decoding
     decode_fi = fi
     if not any(isinstance(x, ast.Attribute) and q.dotted(x) == cb_attr for x in q.walk_body(fi.node)):
@@ -296,19 +323,21 @@ def rule_decode(ck, cb_attr):
         efd = event_facts(decode_fi, {"rc": is_rc}, cond_facts=False)
         ck.ob("C42.callback-once", decode_fi, hcall, ("@rc", True) in efd[hn.id], "the return code is decoded on every path before the callback helper runs", construct="decoded-before " + q.unparse(hcall))
         cfg = fi.cfg
-    k = check_take_and_clear(ck, "C42.callback-once", fi, cb_attr, "the exit callback is taken into a local and the attribute cleared before it is invoked (a re-entrant or repeated _set_returncode cannot run it twice)")
+    k, aliases = _take_and_clear(ck, "C42.callback-once", fi, cb_attr, "the exit callback is taken into a local and the attribute cleared before it is invoked (a re-entrant or repeated _set_returncode cannot run it twice)")
     ck.floor("C42.callback-once", k, 1, "uses of the exit callback")
-    aliases = {p for st in own_nodes(fi.node) if isinstance(st, ast.Assign) and q.dotted(st.value) == cb_attr for p in q.assigned_paths(st)}
     cbcalls = [(n, c) for n, c in cfg.find(lambda x: isinstance(x, ast.Call) and q.dotted(x.func) in aliases | {cb_attr})]
     ef = event_facts(fi, {"rc": is_rc}, cond_facts=False)
     for n, c in cbcalls:
-        ck.ob("C42.callback-once", fi, c, len(c.args) == 1 and q.dotted(c.args[0]) == "self.returncode" and not c.keywords, "the callback receives the decoded return code")
+        rc_locals = {q.dotted(n_.ast.value) for n_ in decode_fi.cfg.stmt_nodes(is_rc) if isinstance(n_.ast.value, ast.Name)}
+        ck.ob("C42.callback-once", fi, c, len(c.args) == 1 and (q.dotted(c.args[0]) == "self.returncode" or (fi is decode_fi and q.dotted(c.args[0]) in rc_locals)) and not c.keywords,
+              "the callback receives the decoded return code")
         if fi is decode_fi:
             ck.ob("C42.callback-once", fi, c, ("@rc", True) in ef[n.id], "the return code is decoded on every path before the callback runs", construct="decoded-before " + q.unparse(c))
     ids = {n.id for n, _c in cbcalls}
-    seen2 = explore(cfg, 0, lambda n, v: min(v + (1 if n.id in ids else 0), 2), lambda t: t in (cb_attr, cb_attr + " is None"), follow_exc=False)
+    tracked = {cb_attr, cb_attr + " is None"} | set(aliases) | {a_ + " is None" for a_ in aliases}
+    seen2 = explore(cfg, 0, lambda n, v: min(v + (1 if n.id in ids else 0), 2), lambda t: t in tracked, follow_exc=False)
     for facts_, cnt in sorted(seen2.get(cfg.exit.id, ()), key=repr):
-        unset = (cb_attr, False) in facts_ or (cb_attr + " is None", True) in facts_
+        unset = any(((t_, False) in facts_) if not t_.endswith(" is None") else ((t_, True) in facts_) for t_ in tracked)
         ck.ob("C42.callback-once", fi, fi.node, cnt == 1 or (cnt == 0 and unset), "a registered exit callback runs exactly once per _set_returncode (count=%d%s)" % (cnt, ", none registered" if unset else ""),
               construct="callback count=%d unset=%s" % (cnt, unset))
     # the attribute is written only by registration and the clear
@@ -350,6 +379,8 @@ def rule_wait_for_exit(ck):
 
     def method_of(fexpr):
         d = q.dotted(fexpr)
+        if isinstance(fexpr, ast.Name) and ck.repo.has_func(F, fexpr.id):
+            return ck.repo.func(F, fexpr.id)  # a module-level function standing in for the closure
         if d and "." in d and d.split(".")[0] in ("self", "cls", CLS) and ck.repo.has_func(F, CLS + "." + d.split(".")[-1]):
             return ck.repo.func(F, CLS + "." + d.split(".")[-1])
         return None
@@ -387,13 +418,13 @@ def rule_wait_for_exit(ck):
     elif isinstance(handed, ast.Lambda) and isinstance(handed.body, ast.Call) and len(handed.args.args) == 1 and not handed.body.keywords:
         m = method_of(handed.body.func)
         if m is None:
-            raise AnalysisError("wait_for_exit: lambda callback does not forward to a method of %s" % CLS)
+            raise AnalysisError("wait_for_exit: lambda callback does not forward to a function/method of this module")
         cb = ck.use(m)
         ret, flag, fut = bind(m, handed.body.args, free_name=handed.args.args[0].arg)
     elif isinstance(handed, ast.Call) and q.call_attr(handed) == "partial" and handed.args and not handed.keywords:
         m = method_of(handed.args[0])
         if m is None:
-            raise AnalysisError("wait_for_exit: partial callback does not forward to a method of %s" % CLS)
+            raise AnalysisError("wait_for_exit: partial callback does not forward to a function/method of this module")
         cb = ck.use(m)
         ret, flag, fut = bind(m, handed.args[1:])
     else:
@@ -532,6 +563,7 @@ MUTANTS = [
     ("_set_returncode scheduled with the pid instead of the status", _m("_try_cleanup_process", replace_expr(lambda n: isinstance(n, ast.Name) and n.id == "status" and isinstance(n.ctx, ast.Load), lambda n: ast.Name(id="ret_pid", ctx=ast.Load()))), "C42.reap"),
     ("ChildProcessError escapes the poll", _m("_try_cleanup_process", replace_stmt(lambda st: isinstance(st, ast.Try), lambda st: list(st.body))), "C42.reap"),
     ("wait_for_exit registers no callback (future never settled)", _m("wait_for_exit", remove_stmts(lambda st: isinstance(st, ast.Expr) and isinstance(st.value, ast.Call) and "set_exit_callback" in _src(st))), "C42.wait-for-exit"),
+    ("seeded C42-adv4: signal deaths no longer raise (ret > 0)", _m("wait_for_exit", replace_expr(lambda n: isinstance(n, ast.Compare) and _src(n) == "ret != 0", lambda n: parse_expr("ret > 0"))), "C42.wait-for-exit"),
     ("wait_for_exit raises whenever raise_error is set or status is non-zero", _m("wait_for_exit", replace_expr(lambda n: isinstance(n, ast.BoolOp) and isinstance(n.op, ast.And) and "raise_error" in _src(n), lambda n: ast.BoolOp(op=ast.Or(), values=n.values))), "C42.wait-for-exit"),
     ("wait_for_exit ignores raise_error", _m("wait_for_exit", replace_expr(lambda n: isinstance(n, ast.BoolOp) and "raise_error" in _src(n), lambda n: n.values[0])), "C42.wait-for-exit"),
     ("wait_for_exit settles with raw set_result", _m("wait_for_exit", replace_expr(lambda n: isinstance(n, ast.Call) and _src(n.func) == "future_set_result_unless_cancelled", lambda n: parse_expr("future.set_result(ret)"))), "C42.settle"),
